@@ -46,6 +46,7 @@ def new(it: Interp, modname: str, name: str, **attrs) -> Obj:
     """An object of a repo class *without* running __init__ (symbolic pre-state); fields given explicitly."""
     o = Obj(cls(it, modname, name))
     o.attrs.update(attrs)
+    it.attach_future(o)
     return o
 
 
